@@ -1413,7 +1413,11 @@ class Stage:
             else:
                 subst_to.append(MX.sym(k.name(), k.sparsity()))
         for k_old, k_new in zip(subst_from, subst_to):
-            ret._placeholders[k_new] = self._placeholders[k_old]
+            (ph_species, ph_expr, ph_args, ph_kwargs) = self._placeholders[k_old]
+            # The expression of a placeholder may itself contain placeholders (and t, T, t0) of the template
+            if isinstance(ph_expr, MX):
+                ph_expr = substitute([ph_expr], subst_from, subst_to)[0]
+            ret._placeholders[k_new] = (ph_species, ph_expr, ph_args, ph_kwargs)
 
         ret.states = copy(self.states)
         ret.controls = copy(self.controls)
